@@ -407,6 +407,49 @@ func c18ChildTable(r *Run) {
 				}
 			}
 		})
+		// the presence test made by a predicate helper (`f.hasChild(name)`: returns the ok of a lookup of its
+		// parameter in the receiver's child table)
+		for _, cd := range condsAtInstr(at) {
+			nc := normCond(cd)
+			c, ok := nc.V.(*ssa.Call)
+			if !ok {
+				continue
+			}
+			g := staticCallee(&c.Call)
+			if g == nil || g.Blocks == nil || g.Pkg != fn.Pkg || g.Signature.Results().Len() != 1 {
+				continue
+			}
+			ki := -1
+			for i, a := range c.Call.Args {
+				if a == key {
+					ki = i
+				}
+			}
+			if ki < 0 || ki >= len(g.Params) {
+				continue
+			}
+			isPred := true
+			nRet := 0
+			for _, ret := range returnsOf(g) {
+				nRet++
+				ex, ok := ret.Results[0].(*ssa.Extract)
+				if !ok || ex.Index != 1 {
+					isPred = false
+					continue
+				}
+				lk, ok := ex.Tuple.(*ssa.Lookup)
+				if !ok || !lk.CommaOk || !isChildren(lk.X) || lk.Index != ssa.Value(g.Params[ki]) {
+					isPred = false
+				}
+			}
+			if isPred && nRet > 0 {
+				if nc.Truth {
+					found = true
+				} else {
+					notFound = true
+				}
+			}
+		}
 		return
 	}
 	for _, fn := range p.FuncsOfPkg("ramfs") {
